@@ -22,6 +22,9 @@ func devKey(d Deviation) string {
 // Minimize returns a (usually much) shorter replay that still violates the same clause.
 func Minimize(rp *Replay, pr *Profile, st *Stats, target Deviation, budget time.Duration) *Replay {
 	deadline := time.Now().Add(budget)
+	saved := sentinelTimeout
+	sentinelTimeout = 3 * time.Second
+	defer func() { sentinelTimeout = saved }()
 	want := devKey(target)
 	fails := func(steps []Op, cfg Config) bool {
 		cand := &Replay{Property: rp.Property, Test: rp.Test, Config: cfg, Steps: steps}
@@ -29,7 +32,7 @@ func Minimize(rp *Replay, pr *Profile, st *Stats, target Deviation, budget time.
 		if err != nil {
 			return false
 		}
-		defer run.W.Close()
+		defer run.Close()
 		for _, d := range run.DevsFor(rp.Property) {
 			if _, ok := tolerated(rp.Property, d); ok {
 				continue
